@@ -33,6 +33,21 @@ def markup_only_under_autoescape(ctx: Ctx, rid: str) -> None:
         ctx.check(ok, fname, f"filters:{fname}", "Markup only under autoescape", f"{fname} must return Markup exactly when eval_ctx.autoescape is on", fi.loc())
 
 
+def replace_escape_table_rule(ctx: Ctx) -> None:
+    """do_replace escapes a plain subject whenever the search or the replacement text is markup
+    (truth table over the three `hasattr(x, '__html__')` probes); shared with C16: otherwise an
+    already escaped fragment is spliced into a plain string and escaped a second time."""
+    rp = ctx.repo.func("filters:do_replace")
+    ifs = [i_ for i_ in ast.walk(rp.node) if isinstance(i_, ast.If) and any(ast.unparse(a_) == "s = escape(s)" for a_ in i_.body)]
+    ctx.need(len(ifs) == 1, "do_replace: the branch escaping the subject was not found")
+    atoms_ = ["hasattr(old, '__html__')", "hasattr(new, '__html__')", "hasattr(s, '__html__')"]
+    tab = astq.bool_table(ifs[0].test, atoms_)
+    bad = [v for v, r_ in tab.items() if (v[0] or v[1]) and not v[2] and r_ is not True]
+    ctx.check(not bad, "replace:escape-table", "filters:do_replace", f"plain subject not escaped for (old, new, s) markup = {bad}" if bad else "escapes whenever an argument is markup",
+              f"do_replace does not escape the plain subject for (old is markup, new is markup, s is markup) = {bad}: `{{{{ text|replace('NAME', macro_result) }}}}` splices the escaped fragment into a plain string, and the output escapes it again (&amp;lt;)",
+              rp.loc(ifs[0]), detail={"table": {str(k): v for k, v in tab.items()}})
+
+
 def check(ctx: Ctx) -> str:
     ctx.use("filters", "utils", "runtime")
     repo = ctx.repo
@@ -126,6 +141,7 @@ def check(ctx: Ctx) -> str:
     esc = [a for a in ast.walk(rp.node) if isinstance(a, ast.Assign) and ast.unparse(a) == "s = escape(s)"]
     esc_ok = len(esc) == 1 and ("eval_ctx.autoescape", True) in astq.guard_atoms(rp.node, esc[0])
     ctx.check(esc_ok and "s.replace(soft_str(old), soft_str(new), count)" in s, "replace", "filters:do_replace", "replace escapes when arguments are markup", "do_replace must escape the subject when old/new are markup and it is not, and replace via soft_str on both arguments", rp.loc())
+    replace_escape_table_rule(ctx)
     jn = repo.func("filters:sync_do_join")
     s = jn.ntext
     desc = [a for a in ast.walk(jn.nnode) if isinstance(a, ast.Assign) and ast.unparse(a) == "d = escape(d)"]
